@@ -47,7 +47,11 @@ func vStubConvert(tbk io.TimeBucketKey, cvm *CSVMetadata, chunk [][]string) (io.
 func VerifC33ImportLoop() {
 	rt.Stub("(*encoding/csv.Reader).Read", vStubCSVRead)
 	rt.Stub("github.com/alpacahq/marketstore/v4/cmd/connect/loader.convertCSVtoCSM", vStubConvert)
-	n := int(rt.Fix(rt.Int("lines", 0, 5)))
+	maxLines, maxChunk := int64(5), int64(3)
+	if rt.Tier() == 1 {
+		maxLines, maxChunk = 8, 4
+	}
+	n := int(rt.Fix(rt.Int("lines", 0, maxLines)))
 	vScript = nil
 	rows := 0
 	for i := 0; i < n; i++ {
@@ -59,7 +63,7 @@ func VerifC33ImportLoop() {
 		}
 	}
 	vScript = append(vScript, 1)
-	chunk := int(rt.Fix(rt.Int("chunk_size", 1, 3)))
+	chunk := int(rt.Fix(rt.Int("chunk_size", 1, maxChunk)))
 	tbk := io.NewTimeBucketKey("AAPL/1Min/OHLCV")
 	cvm := &CSVMetadata{Config: &CSVConfig{}}
 	var reader *csv.Reader
